@@ -1,22 +1,85 @@
 /-
 C08 — Concurrent use is race-free and linearizable.
 
-What is proved here is about the locking discipline (regenerated structural facts) and the
-sequential model every window of the correspondence is compared with; the statement over all
-schedules of the real code is decided by the schedule correspondence (held calls at every
-pause window, free-running histories under the race detector). See DESIGN.md §0.
+Proved here: (1) the locking discipline of the current source, as regenerated structural
+facts; (2) that this discipline — reads atomic under the segment-list read lock, Publish
+committing by the head index append under `writerMu`, Delete committing by the swap under
+`deleteMu` and the write locks — makes *every* schedule of any number of calls
+linearizable: the commit log, read as a sequential run of the specification, returns
+exactly what every call returned and ends in exactly the visible state, each call commits
+once between its invocation and its response, publishers receive disjoint consecutive
+ranges, and a visible message disappears only by a Delete that reports it
+(`Klev/Conc.lean`, no bound on threads or steps).
+
+The statement about the real code over real schedules (goroutines, the kernel's page-wise
+visibility of writes, the race detector) is decided by the schedule correspondence
+(`sched` and `free` profiles). See DESIGN.md §0.5.
 -/
 import Klev.Gen.Facts
+import Klev.Proofs.ConcProofs
 namespace Klev.C08
+open Klev.Conc
 
-/-- The locking discipline of the current source (go/ast, regenerated on every run): every read
-call runs as a whole under the segment-list read lock and touches the list only there; every
-access to the writer in Publish/Delete happens with the writer lock held; the rollover swaps
-the segment list under the write lock. -/
+/-- The locking discipline of the current source (go/ast, regenerated on every run, following
+the statement structure): every read call runs as a whole under the segment-list read lock and
+touches the list only there; every access to the writer in Publish/Delete happens with the
+writer lock held; the rollover swaps the segment list under the write lock. -/
 theorem source_facts :
     Gen.readRegionLocked = true ∧ Gen.writerGuarded = true ∧ Gen.rolloverSwapUnderLock = true := by
   decide
 
+/-- **Linearizability of the lock discipline, for every schedule**: the commit log is a legal
+sequential run of the specification (every committed result is the specification's result, every
+Delete's choice is requested and live) and it produces exactly the visible state. -/
+theorem linearizable (v0 : Vis) (ths : List Th) (h : Fresh ths) (sched : List Nat) :
+    LogOK v0 (run (init v0 ths) sched).log ∧
+      replay v0 (run (init v0 ths) sched).log = (run (init v0 ths) sched).vis :=
+  Klev.Conc.linearizable v0 ths h sched
+
+/-- What a finished call returned is what it committed, exactly once. -/
+theorem done_result_in_log (v0 : Vis) (ths : List Th) (h : Fresh ths) (sched : List Nat)
+    (i : Nat) (t : Th) (r : Conc.Res)
+    (hi : (run (init v0 ths) sched).ths[i]? = some t) (hd : t.phase = .done r) :
+    ∃ ch, (i, t.call, ch, r) ∈ (run (init v0 ths) sched).log ∧
+      ((run (init v0 ths) sched).log.filter (fun e => e.1 == i)).length = 1 :=
+  Klev.Conc.done_result_in_log v0 ths h sched i t r hi hd
+
+/-- "consistent with real time": a call that had returned when another had not started is
+committed before it (and only once). -/
+theorem realtime_order (v0 : Vis) (ths : List Th) (h : Fresh ths) (s1 s2 : List Nat) (i j : Nat)
+    (ti tj : Th) (r : Conc.Res)
+    (hi : (run (init v0 ths) s1).ths[i]? = some ti) (hdi : ti.phase = .done r)
+    (hj : (run (init v0 ths) s1).ths[j]? = some tj) (hsj : tj.phase = .start) :
+    ∃ pre post ei, (run (init v0 ths) (s1 ++ s2)).log = pre ++ ei :: post ∧ ei.1 = i ∧
+      (∀ e ∈ pre, e.1 ≠ j) ∧ (∀ e ∈ pre, e.1 ≠ i) :=
+  Klev.Conc.realtime_order v0 ths h s1 s2 i j ti tj r hi hdi hj hsj
+
+/-- "publishers receive disjoint consecutive offset ranges": a publish entry returns the next
+offset of the log before it plus its batch length, and its messages are stamped from there. -/
+theorem publish_entry_range (v : Vis) (pre post : List (Nat × Call × List Msg × Conc.Res)) (i : Nat) (b : Batch)
+    (ch : List Msg) (r : Conc.Res)
+    (h : LogOK v (pre ++ (i, Call.publish b, ch, r) :: post)) :
+    r = .next ((replay v pre).next + b.length) :=
+  Klev.Conc.publish_entry_range v pre post i b ch r h
+
+/-- "a message once visible never changes or disappears unless a Delete reports it". -/
+theorem no_unreported_loss (v : Vis) (log : List (Nat × Call × List Msg × Conc.Res)) (h : LogOK v log) (m : Msg)
+    (hm : m ∈ v.live) (hgone : m ∉ (replay v log).live) :
+    ∃ e ∈ log, ∃ offs, e.2.1 = Call.delete offs ∧ m ∈ e.2.2.1 ∧ e.2.2.2 = .deleted e.2.2.1 :=
+  Klev.Conc.no_unreported_loss v log h m hm hgone
+
+/-- Two publishers never hold the writer lock at once (and two deleters never the delete lock). -/
+theorem writer_exclusive (v0 : Vis) (ths : List Th) (h : Fresh ths) (sched : List Nat) (i j : Nat) (ti tj : Th)
+    (hi : (run (init v0 ths) sched).ths[i]? = some ti) (hj : (run (init v0 ths) sched).ths[j]? = some tj)
+    (hwi : holdsW ti.phase = true) (hwj : holdsW tj.phase = true) : i = j :=
+  Klev.Conc.writer_exclusive v0 ths h sched i j ti tj hi hj hwi hwj
+
 end Klev.C08
 
 #print axioms Klev.C08.source_facts
+#print axioms Klev.C08.linearizable
+#print axioms Klev.C08.done_result_in_log
+#print axioms Klev.C08.realtime_order
+#print axioms Klev.C08.publish_entry_range
+#print axioms Klev.C08.no_unreported_loss
+#print axioms Klev.C08.writer_exclusive
